@@ -1,7 +1,10 @@
 /* C09 harness: runs the real parse_argspec() of utils/argspec.c (object code of the scratch build of
  * /repo's current tree) on one argument spec per input line and prints the fields of the resulting
  * struct uftrace_arg_spec:   "S <idx> <fmt> <size> <type> <reg_idx/stack_ofs> <struct_reg_cnt> <r0> <r1> <r2> <r3> <type_name|->"
- * or "S -" when the spec is rejected. */
+ * or "S -" when the spec is rejected.
+ * A line "X\t<-A string>\t<-R string>\t<-T string>" (empty = option not given) runs the real extract_trigger_args()
+ * of utils/auto-args.c, as cmds/info.c fill_arg_spec does when it writes the argspec / retspec lines of the info
+ * file, and prints "X\t<argspec>\t<retspec>". */
 #include <stdio.h>
 #include <stdlib.h>
 #include <string.h>
@@ -29,6 +32,23 @@ int main(void)
 		int i;
 		if (n && line[n - 1] == '\n')
 			line[n - 1] = 0;
+		if (line[0] == 'X' && line[1] == '\t') {
+			char *a = line + 2, *r, *t;
+			char *pa, *pr;
+			r = strchr(a, '\t');
+			t = r ? strchr(r + 1, '\t') : NULL;
+			if (!r || !t) {
+				printf("X -\n");
+				continue;
+			}
+			*r++ = 0;
+			*t++ = 0;
+			pa = *a ? a : NULL;
+			pr = *r ? r : NULL;
+			extract_trigger_args(&pa, &pr, *t ? t : NULL);
+			printf("X\t%s\t%s\n", pa ? pa : "", pr ? pr : "");
+			continue;
+		}
 		s = parse_argspec(line, &setting);
 		if (s == NULL) {
 			printf("S -\n");
